@@ -176,6 +176,75 @@ func runHex(cfg *config, res *monitor.Result) {
 			}
 		}
 	}
+	// very long physical lines (no line break for >64 KiB: single-line dumps, long comments, long blank runs)
+	longKinds := []string{"spaced-one-line", "packed-one-line", "long-comment-then-more", "long-blank-run", "long-line-in-the-middle"}
+	for k, kind := range longKinds {
+		for rep := 0; rep < 2; rep++ {
+			if !cfg.mine(k*2 + rep) {
+				continue
+			}
+			b := r.Bytes(300 + r.Intn(200))
+			pad := 65536 + r.Intn(3)*4097 - 1 + rep // around and beyond 64 KiB
+			var sb strings.Builder
+			switch kind {
+			case "spaced-one-line":
+				b = r.Bytes(pad/3 + 2)
+				for _, c := range b {
+					fmt.Fprintf(&sb, "%02x ", c)
+				}
+			case "packed-one-line":
+				b = r.Bytes(pad/2 + 2)
+				for _, c := range b {
+					fmt.Fprintf(&sb, "%02X", c)
+				}
+			case "long-comment-then-more":
+				fmt.Fprintf(&sb, "%02x %02x ; %s\n", b[0], b[1], strings.Repeat("c", pad))
+				for _, c := range b[2:] {
+					fmt.Fprintf(&sb, "%02x\n", c)
+				}
+			case "long-blank-run":
+				fmt.Fprintf(&sb, "%02x%s%02x\n", b[0], strings.Repeat(" ", pad), b[1])
+				for _, c := range b[2:] {
+					fmt.Fprintf(&sb, " %02x", c)
+				}
+			case "long-line-in-the-middle":
+				for i, c := range b {
+					fmt.Fprintf(&sb, "%02x ", c)
+					if i == 10 {
+						sb.WriteString("\n")
+						big := r.Bytes(pad / 3)
+						for _, c2 := range big {
+							fmt.Fprintf(&sb, "%02x ", c2)
+						}
+						sb.WriteString("\n")
+						b = append(append(append([]byte(nil), b[:11]...), big...), b[11:]...)
+					}
+				}
+			}
+			text := sb.String()
+			evals++
+			var got []byte
+			var err error
+			pi := monitor.Try(func() { got, err = prototest.ParseAnnotatedHex(text) })
+			switch {
+			case pi != nil:
+				res.Violate("C20:hex:panic", "ParseAnnotatedHex panicked: "+pi.Value, map[string]any{"text_len": len(text), "kind": kind})
+			case err != nil:
+				res.Violate("C20:hex:valid-rejected:long-line/"+kind, "ParseAnnotatedHex rejected a valid rendering with a very long line: "+err.Error(), map[string]any{"text_len": len(text), "bytes": len(b)})
+			case !bytes.Equal(got, b):
+				res.Violate("C20:hex:wrong-bytes:long-line/"+kind, fmt.Sprintf("ParseAnnotatedHex returned %d bytes for a text (%d chars, longest line > 64 KiB) whose digits outside comments denote %d bytes", len(got), len(text), len(b)), map[string]any{"text_len": len(text), "kind": kind})
+			}
+			classes["hex-long-line/"+kind]++
+			// a foreign character after the long line must still be rejected
+			evals++
+			bad := text + "\nzz\n"
+			pi = monitor.Try(func() { _, err = prototest.ParseAnnotatedHex(bad) })
+			if pi == nil && err == nil {
+				res.Violate("C20:hex:invalid-accepted:after-long-line/"+kind, "ParseAnnotatedHex accepted text with \"zz\" on a line following a very long line", map[string]any{"text_len": len(bad), "kind": kind})
+			}
+			classes["hex-long-line-corrupt/"+kind]++
+		}
+	}
 	res.Eval(evals)
 	res.MergeClasses(classes)
 }
